@@ -46,11 +46,55 @@ def scope(tier, seed, positive=False, flexible=True):
     return inst, bound, (4000 if tier == "thorough" else 600)
 
 
-def mk(jobs, model, flt=None):
+class ValidDispatchRejected(Exception):
+    """a dispatch of a ready operation on an eligible machine raised"""
+
+    def __init__(self, history, step, err):
+        super().__init__(f"dispatch #{step + 1} of the valid history {history} raised {type(err).__name__}: "
+                         f"{str(err)[:160]}")
+        self.history = history
+
+
+def mk(jobs, model, flt=None, poke=None):
+    """real dispatcher brought to the model's state by replaying its history; `poke`
+    (optional) is called with the dispatcher before every dispatch to issue queries"""
     inst = build_instance(jobs)
     d = Dispatcher(inst, ready_operations_filter=flt)
-    replay(d, inst, model.history)
+    for step, (j, m) in enumerate(model.history):
+        if poke is not None:
+            poke(d, inst)
+        op = inst.jobs[j][d.job_next_operation_index[j]]
+        try:
+            d.dispatch(op, m)
+        except Exception as e:  # noqa: BLE001
+            raise ValidDispatchRejected(model.history[: step + 1], step, e) from e
     return inst, d
+
+
+def make_poker(rng):
+    """random state queries between dispatches (C02/C05: answers and later start times
+    must not depend on what was asked before)"""
+    def poke(d, inst):
+        for _ in range(rng.randint(0, 3)):
+            c = rng.random()
+            if c < 0.3:
+                d.current_time()
+            elif c < 0.5:
+                d.available_operations()
+            elif c < 0.8:
+                ops = d.raw_ready_operations()
+                if ops:
+                    o = rng.choice(ops)
+                    d.start_time(o, rng.choice(o.machines))
+                    d.earliest_start_time(o)
+            elif c < 0.9:
+                d.uncompleted_operations()
+                d.ongoing_operations()
+            else:
+                j = rng.randrange(inst.num_jobs)
+                if d.job_next_operation_index[j] < len(inst.jobs[j]):
+                    d.next_operation(j)
+    return poke
 
 
 # --------------------------------------------------------------------------- C01
@@ -93,9 +137,13 @@ def run_C01(tier, seed):
         for flt_name in (None, "dominated_operations"):
             flt = FILTERS.get(flt_name)
             for model in histories(jobs, cap, rng):
-                inst, d = mk(jobs, model, flt)
                 res.count("feasible-after-every-step")
                 res.case((str(jobs), tuple(model.history)))
+                try:
+                    inst, d = mk(jobs, model, flt, make_poker(rng) if rng.random() < 0.5 else None)
+                except ValidDispatchRejected as e:
+                    res.breach("valid-dispatch-accepted", str(e), jobs=jobs, history=e.history, filter=flt_name)
+                    continue
                 errs = feasibility_errors(inst, d)
                 if errs:
                     res.breach("feasible-after-every-step", errs[0], jobs=jobs, history=model.history,
@@ -117,8 +165,13 @@ def run_C02(tier, seed):
     rng = random.Random(seed)
     for jobs in insts:
         for model in histories(jobs, cap, rng):
-            inst, d = mk(jobs, model)
             res.case((str(jobs), tuple(model.history)))
+            try:
+                inst, d = mk(jobs, model, FILTERS["dominated_operations"] if rng.random() < 0.3 else None,
+                             make_poker(rng) if rng.random() < 0.6 else None)
+            except ValidDispatchRejected as e:
+                res.breach("valid-dispatch-accepted", str(e), jobs=jobs, history=e.history)
+                continue
             real = real_schedule(d)
             want = [[(j, p, s, e, m) for (j, p, s, e) in lst] for m, lst in enumerate(model.sched)]
             res.count("forced-start-times")
@@ -185,7 +238,11 @@ def run_C05(tier, seed):
                 continue
             flt = FILTERS.get(flt_name)
             for model in histories(jobs, cap // 2, rng):
-                inst, d = mk(jobs, model, flt)
+                try:
+                    inst, d = mk(jobs, model, flt)
+                except ValidDispatchRejected as e:
+                    res.breach("valid-dispatch-accepted", str(e), jobs=jobs, history=e.history, filter=flt_name)
+                    continue
                 res.case((str(jobs), tuple(model.history), flt_name))
                 spec, sched, allops = query_spec(jobs, model)
                 ready = model.ready()
@@ -356,7 +413,11 @@ def run_C07(tier, seed):
     pairs = list(itertools.permutations(names, 2)) + [tuple(names)]
     for jobs in insts:
         for model in histories(jobs, cap // 4, rng):
-            inst, d = mk(jobs, model)
+            try:
+                inst, d = mk(jobs, model)
+            except ValidDispatchRejected as e:
+                res.breach("valid-dispatch-accepted", str(e), jobs=jobs, history=e.history)
+                continue
             ready = model.ready()
             subs = [list(c) for r in range(1, len(ready) + 1) for c in itertools.combinations(ready, r)]
             for L in subs:
@@ -423,6 +484,9 @@ def snapshot(d, observers):
     return snap
 
 
+GLOBAL_LOG = []
+
+
 class Recorder(DispatcherObserver):
     _is_singleton = False
 
@@ -443,11 +507,13 @@ class Recorder(DispatcherObserver):
                 and d.job_next_available_time[o.job_id] == scheduled_operation.end_time)
         self.events.append(("update", o.job_id, o.position_in_job, scheduled_operation.machine_id,
                             bool(seen_in_schedule and k_ok and q_ok and t_ok)))
+        GLOBAL_LOG.append(self.tag)
 
     def reset(self):
         d = self.dispatcher
         empty = all(not lst for lst in d.schedule.schedule) and not any(d.job_next_operation_index)
         self.events.append(("reset", bool(empty)))
+        GLOBAL_LOG.append(self.tag)
 
 
 def attach_observers(d, with_features=True):
@@ -546,8 +612,80 @@ def run_C09(tier, seed):
                 if real_schedule(d) != want:
                     res.breach("valid-request-after-rejection", "schedule differs from the one without the rejected "
                                "requests", jobs=jobs, history=nxt.history)
+        if all(dur > 0 for job in jobs for _, dur in job):
+            env_part_C09(res, jobs, rng)
         res.sample({"jobs": jobs})
     return res
+
+
+def env_part_C09(res, jobs, rng):
+    """invalid environment steps (finished job, ineligible / out-of-range machine) injected
+    between valid ones: raise, change nothing, later steps unaffected"""
+    import numpy as np
+    from job_shop_lib.dispatching import DispatcherObserverConfig
+    from job_shop_lib.dispatching.feature_observers import FeatureObserverType
+    from job_shop_lib.graphs import build_agent_task_graph
+    from job_shop_lib.reinforcement_learning import SingleJobShopGraphEnv
+    inst = build_instance(jobs)
+    try:
+        env = SingleJobShopGraphEnv(build_agent_task_graph(inst),
+                                    [DispatcherObserverConfig(FeatureObserverType.IS_READY, kwargs={}),
+                                     DispatcherObserverConfig(FeatureObserverType.DURATION, kwargs={})],
+                                    ready_operations_filter=None)
+        env.reset()
+    except Exception as e:  # noqa: BLE001  (constructibility belongs to C18)
+        res.notes.append(f"env not constructible: {type(e).__name__}")
+        return
+    model = Model(jobs)
+
+    def state():
+        obs = env.get_observation()
+        return (real_schedule(env.dispatcher), list(env.dispatcher.job_next_operation_index),
+                list(env.reward_function.rewards), list(env.job_shop_graph.removed_nodes),
+                {k: np.nan_to_num(np.asarray(v, dtype=float), nan=-7.0).tolist() for k, v in obs.items()})
+    while True:
+        bad = []
+        M = model.M
+        for j, job in enumerate(jobs):
+            if model.k[j] == len(job):
+                bad.append((j, -1))
+                bad.append((j, 0))
+            else:
+                ms = job[model.k[j]][0]
+                bad += [(j, m) for m in list(range(M)) + [M, M + 2] if m not in ms]
+                if len(ms) > 1:
+                    bad.append((j, -1))
+        for a in (rng.sample(bad, 3) if len(bad) > 3 else bad):
+            res.count("rejected-env-step-changes-nothing")
+            res.case((str(jobs), tuple(model.history), a, "env"))
+            before = state()
+            try:
+                env.step(a)
+                res.breach("invalid-env-step-raises", f"step{a} accepted", jobs=jobs, history=model.history, action=a)
+                return
+            except Exception:  # noqa: BLE001
+                pass
+            if state() != before:
+                res.breach("rejected-env-step-changes-nothing", f"step{a} raised but changed the environment", jobs=jobs,
+                           history=model.history, action=a)
+                return
+        legal = model.legal()
+        if not legal:
+            break
+        j, m = rng.choice(legal)
+        res.count("valid-env-step-after-rejection")
+        try:
+            env.step((j, m))
+        except Exception as e:  # noqa: BLE001
+            res.breach("valid-env-step-after-rejection", f"valid step ({j}, {m}) raised {type(e).__name__} after rejected "
+                       "steps", jobs=jobs, history=model.history + [(j, m)])
+            return
+        model.apply(j, m)
+        want = [[(a_, b_, s_, e_, mm) for (a_, b_, s_, e_) in lst] for mm, lst in enumerate(model.sched)]
+        if real_schedule(env.dispatcher) != want:
+            res.breach("valid-env-step-after-rejection", "schedule differs from the one without the rejected steps",
+                       jobs=jobs, history=model.history)
+            return
 
 
 # --------------------------------------------------------------------------- C10
@@ -563,6 +701,8 @@ def run_C10(tier, seed):
             model = Model(jobs)
             recs = [Recorder(d, tag="a"), Recorder(d, tag="b")]
             hist = HistoryObserver(d)
+            recs += [Recorder(d, tag="c"), Recorder(d, tag="d")]
+            sub_order = ["a", "b", "c", "d"]   # subscription order of the recorders, maintained by this harness
             expected = {id(r): [] for r in recs}
             subscribed = {id(r): True for r in recs}
             dispatched = []
@@ -574,9 +714,11 @@ def run_C10(tier, seed):
                 res.count("event")
                 if c < 0.55 and model.legal():
                     j, m = rng.choice(model.legal())
-                    order_before = [id(s) for s in d.subscribers]
-                    marks = {id(r): len(r.events) for r in recs}
+                    del GLOBAL_LOG[:]
                     d.dispatch(inst.jobs[j][model.k[j]], m)
+                    if GLOBAL_LOG != sub_order:
+                        res.breach("notified-in-subscription-order", f"dispatch notified {GLOBAL_LOG}, subscription order "
+                                   f"is {sub_order}", jobs=jobs, history=model.history)
                     jj, p, s, e = model.apply(j, m)
                     dispatched.append((jj, p, m))
                     for r in recs:
@@ -598,11 +740,17 @@ def run_C10(tier, seed):
                     if subscribed[id(r)]:
                         d.unsubscribe(r)
                         subscribed[id(r)] = False
+                        sub_order.remove(r.tag)
                     else:
                         d.subscribe(r)
                         subscribed[id(r)] = True
+                        sub_order.append(r.tag)
                 elif c < 0.82:
+                    del GLOBAL_LOG[:]
                     d.reset()
+                    if GLOBAL_LOG != sub_order:
+                        res.breach("notified-in-subscription-order", f"reset notified {GLOBAL_LOG}, subscription order is "
+                                   f"{sub_order}", jobs=jobs, history=model.history)
                     model.reset()
                     dispatched = []
                     for s_ in d.subscribers:
